@@ -20,7 +20,7 @@ import time
 
 VERIF = os.path.dirname(os.path.dirname(os.path.abspath(__file__)))
 REPO = os.environ.get('VERIF_REPO', '/repo')
-MEM_KB = 24 * 1024 * 1024
+MEM_KB = int(os.environ.get('VERIF_KANI_MEM_KB', 24 * 1024 * 1024))
 
 
 def make_scratch(suite_dir, cfg):
